@@ -36,6 +36,7 @@ def run(ctx):
     ctx.call(GR.validate_coverage, "4v")
     ctx.call(T.t_s1, "3x/T.S1")
     ctx.call(GR.name_forms, "5n")
+    ctx.call(GR.bridged_form_anchored, "5a")
     ctx.call(GR.worker_symmetry, "6")
     ctx.call(GR.flat_expansion, "7")
     ctx.call(GR.lazy_eager_details, "8")
